@@ -39,6 +39,8 @@ def parse_step_obs(chk, tag, states=range(0, 16), checks="none", callbacks=False
         for ctxf in (0, F["NOCASE"], F["IGNORE"], F["COMMENTS"]):
             for level in (0, 1):
                 add(0, "INT", 1, ctxf, level)
+        add(0, "INT", 1, F["IGNORE"] | F["COMMENTS"], 0)
+        add(0, "INT", 1, F["IGNORE"] | F["COMMENTS"], 1)
         add(0, "DEPR", 1, 0, 0, extra=("PREV_IS_O",))
         add(0, "DEPRDROP", 1, 0, 1, extra=("PREV_IS_O",))
         add(0, "DEPRDROP", 1, F["IGNORE"], 0, extra=("PREV_IS_O",))
